@@ -76,7 +76,8 @@ Definition run_schema (s : sx) : sx :=
               of_optbool (d4 orc flocq_ops dfs fuel sch data);
               ofZs (dedupZ (visit orc dfs fuel sch data));
               (* is the case inside the fragment on which agreement is proved (Schema/Agreement.v, decided by AgreementDec.v)? *)
-              ofBool (clean_b f_finite orc fuel sch && jd_b f_finite (S (goval_depth data)) data) ]
+              ofBool ((clean_b f_finite false orc fuel sch && jd_b f_finite false (S (goval_depth data)) data) ||
+                      (clean_b f_finite true orc fuel sch && jd_b f_finite true (S (goval_depth data)) data)) ]
       | _, _, _, _, _, _ => sx_err
       end
   | _ => sx_err
